@@ -342,13 +342,19 @@ void _vnacal_teardown_parameter_collection(vnacal_t *vcp)
     for (int i = vprmcp->vprmc_allocation - 1; i >= 0; --i) {
 	vnacal_parameter_t *vpmrp = vprmcp->vprmc_vector[i];
 
-	if (vpmrp != NULL) {
-	    assert(!vpmrp->vpmr_deleted);
+	/*
+	 * A parameter can still be held by an unknown or correlated
+	 * parameter in any other slot (slots are reused), possibly after
+	 * the user has already deleted it.  Drop the user's reference if
+	 * it still exists; the parameter goes away when its last holder
+	 * does.
+	 */
+	if (vpmrp != NULL && !vpmrp->vpmr_deleted) {
 	    vpmrp->vpmr_deleted = true;
 	    _vnacal_release_parameter(vpmrp);
-	    assert(vprmcp->vprmc_vector[i] == NULL);
 	}
     }
+    assert(vprmcp->vprmc_count == 0);
     free((void *)vprmcp->vprmc_vector);
     (void)memset((void *)&vcp->vc_parameter_collection, 0,
 	    sizeof(vcp->vc_parameter_collection));
